@@ -83,7 +83,7 @@ def run_unit(ck, unit):
         return
     # arrays of two elements where elements of an array of objects matter (nested blocks), also in the quick tier
     wide = name.split('/')[0] in ('nested', 'shake', 'matrix')
-    bounds = Bounds(str_cap=3 if quick else 4, arr_cap=2 if (wide or not quick) else 1, depth=2)
+    bounds = Bounds(str_cap=3 if quick else 4, arr_cap=2 if (wide or not quick) else 1, depth=3 if 'n.m.f' in name else 2)
     tr = TreeRunner(ck, bounds)
     tr.uni.numstr_cap = 2
     o = tr.evaluate(base)
